@@ -146,6 +146,12 @@ def judge(ctx, case, cfgd, cfg, cs, inp, rng, modeled):
         "cs.read(name, bytes)": lambda: cs.read("T", bytes(body)),
         "cs.read(name, BytesIO)": lambda: cs.read("T", io.BytesIO(body)),
         "cs.read(name, memoryview)": lambda: cs.read("T", memoryview(body)),
+        # subclasses of the bytes-like types (the value of a parsed char[n] field is one)
+        "T(bytes-subclass)": lambda: T(_Bytes(body)),
+        "T.read(bytes-subclass)": lambda: T.read(_Bytes(body)),
+        "T.reads(bytearray-subclass)": lambda: T.reads(_ByteArray(body)),
+        "cs.read(name, bytearray-subclass)": lambda: cs.read("T", _ByteArray(body)),
+        "T(char-array-value)": lambda: T(cs.char[len(body)](body)) if len(body) != 1 else T(_Bytes(body)),
         # views that do not cover their underlying object: slices of bytes / bytearray, and a cast view
         "T(memoryview-slice)": lambda: T(memoryview(b"\x11\x22\x33" + body + b"\x44")[3:-1]),
         "T.reads(memoryview-slice)": lambda: T.reads(memoryview(bytearray(b"\x99" * 5 + body))[5:]),
@@ -271,6 +277,31 @@ class _Reader:
         return self.pos
 
 
+class _SlotsReader:
+    """A file-like object of a class with __slots__ (no __dict__, no __weakref__: it cannot be weakly referenced)."""
+    __slots__ = ("b",)
+
+    def __init__(self, data):
+        self.b = io.BytesIO(bytes(data))
+
+    def read(self, n=-1):
+        return self.b.read(n)
+
+    def seek(self, *a):
+        return self.b.seek(*a)
+
+    def tell(self):
+        return self.b.tell()
+
+
+class _Bytes(bytes):
+    """A subclass of bytes (what a parsed char[n] field holds is one, too)."""
+
+
+class _ByteArray(bytearray):
+    pass
+
+
 def pointer_tables(ctx, rng, n):
     """Pointers parsed from a stream are dereferenced on that stream: a table of fixed-size entries that point at data
     behind the table gives the same targets for every input kind, call form and start offset (the entries of counted,
@@ -281,7 +312,8 @@ def pointer_tables(ctx, rng, n):
 
     text = ("struct entry { uint16 id; char *name; };\n"
             "struct pair { uint32 *num; entry e; };\n"
-            "struct table { uint8 count; entry entries[count]; pair p; entry fixed[2]; uint8 end; };\n")
+            "union uref { entry e; uint8 raw[12]; };\n"
+            "struct table { uint8 count; entry entries[count]; pair p; entry fixed[2]; uref u; uint8 end; };\n")
     tmpdir = tempfile.mkdtemp(prefix="vf-c09p-")
     try:
         for it in range(n):
@@ -292,10 +324,10 @@ def pointer_tables(ctx, rng, n):
             compiled = rng.random() < 0.5
             cs = lib.load(text, endian, False, compiled, ptr=ptr)
             count = rng.randint(0, 5)
-            nent = count + 1 + 2
+            nent = count + 1 + 2 + 1      # counted entries, the one in `pair`, the fixed two, the one inside the union
             names = [bytes(rng.randrange(97, 123) for _ in range(rng.randint(0, 6))) for _ in range(nent)]
             num = rng.randrange(1 << 32)
-            tsize = 1 + nent * (2 + psz) + psz + 1
+            tsize = 1 + (nent - 1) * (2 + psz) + psz + 12 + 1
 
             def blob_at(p, prefix):
                 pos = p + tsize
@@ -308,13 +340,13 @@ def pointer_tables(ctx, rng, n):
                 tail += struct.pack(endian + "I", num)
                 ent = [struct.pack(endian + "H", 0x100 + i) + struct.pack(pf, a) for i, a in enumerate(addrs)]
                 body = (bytes([count]) + b"".join(ent[:count]) + struct.pack(pf, numaddr) + ent[count]
-                        + b"".join(ent[count + 1:]) + b"\x7e")
+                        + b"".join(ent[count + 1:count + 3]) + ent[count + 3].ljust(12, b"\x00") + b"\x7e")
                 assert len(body) == tsize
                 return prefix + body + tail + b"\xcc" * 3
 
             def targets(obj):
                 out = [obj.count, obj.end, int(obj.p.num.dereference())]
-                for e in [*obj.entries, obj.p.e, *obj.fixed]:
+                for e in [*obj.entries, obj.p.e, *obj.fixed, obj.u.e]:
                     out.append((e.id, e.name.dereference()))
                 return out
 
@@ -329,11 +361,13 @@ def pointer_tables(ctx, rng, n):
                     "BytesIO": lambda: io.BytesIO(blob), "buffered-file": lambda: open(path, "rb"),
                     "unbuffered-file": lambda: open(path, "rb", buffering=0),
                     "recording": lambda: RecordingStream(blob, 0), "minimal-reader": lambda: _Reader(blob),
-                    "mmap": lambda: _mmap_of(path),
+                    "mmap": lambda: _mmap_of(path), "slots-reader": lambda: _SlotsReader(blob),
                 }
                 if p == 0:
                     kinds.update({"bytes": lambda: blob, "bytearray": lambda: bytearray(blob),
-                                  "memoryview": lambda: memoryview(blob)})
+                                  "memoryview": lambda: memoryview(blob), "bytes-subclass": lambda: _Bytes(blob),
+                                  "bytearray-subclass": lambda: _ByteArray(blob),
+                                  "char-array-value": lambda: cs.char[len(blob)](blob)})
                 for kname, mk in kinds.items():
                     for form, call in (("T(x)", lambda x: cs.table(x)), ("T.read(x)", lambda x: cs.table.read(x)),
                                        ("cs.read(name, x)", lambda x: cs.read("table", x))):
